@@ -2477,6 +2477,165 @@ def translate_slot(repo, exp):
     return "\n".join(out), done, failed
 
 
+SRV_WANTED = ["Server::incomingConnection"]
+
+
+class SrvFn(Fn):
+    """`Server::incomingConnection`: the sequence of things done with the new connection (`Qhttp/Model/VxPrim.lean`);
+    the sockets are pointer locals created with `new`."""
+    def __init__(self, ctx, key):
+        Fn.__init__(self, ctx, key)
+        self.state_ty = "List Vx.Act"
+        self.env_sig = "(ve : Vx.Env) "
+        self.uses_env = True
+        self.params = [p for p in self.params if not p[2].startswith("?")]          # qintptr socketDescriptor
+
+    def member(self, n):
+        n = strip(n)
+        if n.get("kind") == "MemberExpr" and kids(n):
+            base = strip(kids(n)[0])
+            if base.get("kind") == "MemberExpr" and base.get("name") == "d" and kids(base) and strip(kids(base)[0]).get("kind") == "CXXThisExpr":
+                return n["name"]
+        return None
+
+    def obj_path(self, n):
+        if self.member(n) == "configuration":
+            return "configuration"
+        n0 = strip(n)
+        if n0.get("kind") == "MemberExpr" and n0.get("name") == "d" and kids(n0) and strip(kids(n0)[0]).get("kind") == "CXXThisExpr":
+            return "d"
+        if n0.get("kind") == "DeclRefExpr" and n0.get("referencedDecl", {}).get("kind") in ("VarDecl", "ParmVarDecl"):
+            return ("local", n0["referencedDecl"]["name"])
+        return None
+
+    def effectful(self, n):
+        n0 = strip(n)
+        if n0.get("kind") == "CXXMemberCallExpr":
+            callee = strip(kids(n0)[0])
+            if callee.get("kind") == "MemberExpr" and kids(callee) and self.obj_path(kids(callee)[0]) != "configuration":
+                return True
+        if n0.get("kind") in ("CallExpr", "CXXNewExpr"):
+            return True
+        return any(self.effectful(c) for c in kids(n0) if c.get("kind") != "LambdaExpr")
+
+    def is_ptr(self, n, env, kind=None):
+        n0 = strip(n)
+        vn = n0.get("referencedDecl", {}).get("name") if n0.get("kind") == "DeclRefExpr" else None
+        return vn in env and env[vn][1].startswith("ptr:") and (kind is None or env[vn][1] == "ptr:" + kind)
+
+    def simple(self, s, env):
+        s0 = strip(s)
+        if s0.get("kind") == "DeclStmt" and len(kids(s0)) == 1 and kids(s0)[0].get("kind") == "VarDecl" and kids(kids(s0)[0]):
+            v = kids(s0)[0]
+            init = strip(kids(v)[0])
+            if init.get("kind") == "CXXNewExpr":
+                cls = qt(init).replace("*", "").strip()
+                args = [c for c in kids(init) if c.get("kind") == "CXXConstructExpr"]
+                parent_this = args and [strip(a).get("kind") for a in kids(args[0]) if a.get("kind") != "CXXDefaultArgExpr"] == ["CXXThisExpr"]
+                if cls in ("QSslSocket", "QTcpSocket") and parent_this:
+                    env = dict(env)
+                    env[v["name"]] = (v["name"], "ptr:ssl" if cls == "QSslSocket" else "ptr:tcp")
+                    return ["let s := Vx.act s %s" % ("Vx.Act.newSsl" if cls == "QSslSocket" else "Vx.Act.newTcp")], env
+                raise Untranslatable("new " + cls)
+        if s0.get("kind") == "CallExpr" and strip(kids(s0)[0]).get("referencedDecl", {}).get("name") == "connect":
+            p, c, t = self.call_free(s0, env, want_value=False)
+            return p, env
+        return Fn.simple(self, s, env)
+
+    def call_member(self, n, env, want_value):
+        ks = kids(n)
+        callee = strip(ks[0])
+        if callee.get("kind") == "MemberExpr" and kids(callee):
+            objn = kids(callee)[0]
+            obj = self.obj_path(objn)
+            nm = callee["name"]
+            real = [x for x in ks[1:] if x.get("kind") != "CXXDefaultArgExpr"]
+            if obj == "configuration" and nm == "isNull" and not real:
+                return [], "ve.tlsNull", "bool"
+            if obj == "d" and nm == "process" and len(real) == 1 and self.is_ptr(real[0], env):
+                return ["let s := Vx.act s Vx.Act.process"], "()", "void"
+            if self.is_ptr(objn, env):
+                if nm == "setSocketDescriptor" and len(real) == 1 and strip(real[0]).get("referencedDecl", {}).get("name") == "socketDescriptor":
+                    return ["let s := Vx.act s Vx.Act.setDescriptor"], "()", "void"
+                if nm == "setSslConfiguration" and len(real) == 1 and self.obj_path(real[0]) == "configuration" and self.is_ptr(objn, env, "ssl"):
+                    return ["let s := Vx.act s Vx.Act.setConfig"], "()", "void"
+                if nm == "startServerEncryption" and not real and self.is_ptr(objn, env, "ssl"):
+                    return ["let s := Vx.act s Vx.Act.startEncryption"], "()", "void"
+                raise Untranslatable("socket->%s" % nm)
+        return Fn.call_member(self, n, env, want_value)
+
+    def call_free(self, n, env, want_value):
+        ks = kids(n)
+        fn = strip(ks[0])
+        nm = fn.get("referencedDecl", {}).get("name")
+        real = [x for x in ks[1:] if x.get("kind") != "CXXDefaultArgExpr"]
+        def signal_of(x):
+            x = strip(x)
+            while x.get("kind") in ("CXXStaticCastExpr", "ParenExpr") and kids(x):
+                x = strip(kids(x)[-1])
+            if x.get("kind") == "UnaryOperator" and kids(x):
+                return strip(kids(x)[0]).get("referencedDecl", {}).get("name")
+            return None
+        if nm == "connect" and len(real) >= 3 and self.is_ptr(real[0], env):
+            sig = signal_of(real[1])
+            if len(real) == 3 and sig == "encrypted" and strip(real[2]).get("kind") == "LambdaExpr" and self.is_ptr(real[0], env, "ssl"):
+                lam = strip(real[2])
+                body = [c for c in kids(lam) if c.get("kind") == "CompoundStmt"]
+                stmts = kids(body[-1]) if body else []
+                if len(stmts) == 1:
+                    c0 = strip(stmts[0])
+                    if c0.get("kind") == "CXXMemberCallExpr" and strip(kids(c0)[0]).get("name") == "process":
+                        args = [x for x in kids(c0)[1:] if x.get("kind") != "CXXDefaultArgExpr"]
+                        same = len(args) == 1 and strip(args[0]).get("referencedDecl", {}).get("name") == strip(real[0]).get("referencedDecl", {}).get("name")
+                        if same:
+                            return ["let s := Vx.act s Vx.Act.onEncryptedProcess"], "()", "void"
+            if len(real) == 4 and sig == "error" and signal_of(real[3]) == "deleteLater" and \
+                    strip(real[2]).get("referencedDecl", {}).get("name") == strip(real[0]).get("referencedDecl", {}).get("name"):
+                return ["let s := Vx.act s Vx.Act.onErrorDelete"], "()", "void"
+            raise Untranslatable("connect() of another kind on the new socket")
+        return Fn.call_free(self, n, env, want_value)
+
+
+def translate_srv(repo, exp):
+    docs = clang_ast(repo, "server.cpp", "QHttpEngine::Server", exp)
+    decls = {}
+    by_id = {}
+    def index(n, cls=None):
+        if n.get("kind") == "CXXRecordDecl" and n.get("name"):
+            cls = n["name"]
+        if n.get("kind") == "CXXMethodDecl" and "id" in n and cls:
+            by_id[n["id"]] = cls
+        for ch in n.get("inner", []) or []:
+            index(ch, cls)
+    for d in docs:
+        index(d)
+    for d in docs:
+        if d.get("kind") == "CXXMethodDecl" and body_of(d) is not None:
+            cls = by_id.get(d.get("previousDecl"))
+            if cls:
+                decls[cls + "::" + d["name"]] = d
+    ctx = Ctx(decls, {}, "")
+    ctx.fetch = lambda name: clang_ast(repo, "server.cpp", name, exp)
+    ctx.fn_class = SrvFn
+    done, failed = [], []
+    for key in SRV_WANTED:
+        try:
+            ctx.need(key)
+        except Untranslatable as e:
+            failed.append("%s (%s)" % (key, e))
+    out = ["-- GENERATED on every run by tools/cxx2lean_qt.py from src/src/server.cpp — do not edit.",
+           "import Qhttp.Model.VxPrim", "set_option linter.unusedVariables false", "", "namespace QhttpGen.Srv", "open Qhttp", ""]
+    for key in ctx.order:
+        out.append(ctx.code[key]); done.append(key)
+    helpers = [ctx.done[k]["name"] for k in ctx.order if k not in SRV_WANTED]
+    out.append("end QhttpGen.Srv\n")
+    if helpers:
+        out.append("macro \"unfold_srv_helpers\" : tactic => `(tactic| (%s; try simp only [] at *))\n" % "; ".join("(try delta QhttpGen.Srv.%s at *)" % h for h in helpers))
+    else:
+        out.append("macro \"unfold_srv_helpers\" : tactic => `(tactic| skip)\n")
+    return "\n".join(out), done, failed
+
+
 PARSER_WANTED = ["Parser::split", "Parser::parseHeaderList", "Parser::parseHeaders", "Parser::parseRequestHeaders", "Parser::parseResponseHeaders"]
 
 # what a function that could not be translated is replaced by: the model's function in the translated signature
@@ -2591,6 +2750,11 @@ if __name__ == "__main__":
     import sys
     if len(sys.argv) > 2 and sys.argv[2] == "fs":
         text, done, failed = translate_fs(sys.argv[1], "/repo/_build/src")
+        print(text)
+        print("-- done:", done, "\n-- failed:", failed, file=sys.stderr)
+        sys.exit(0)
+    if len(sys.argv) > 2 and sys.argv[2] == "srv":
+        text, done, failed = translate_srv(sys.argv[1], "/repo/_build/src")
         print(text)
         print("-- done:", done, "\n-- failed:", failed, file=sys.stderr)
         sys.exit(0)
